@@ -11,7 +11,7 @@ RULE = ("Flow A: TLC runs the repair machine (scan step per action, look-back, p
         "6..8 (7..10) of generated order-1 and order-2 graphs x every admissible single edit (pairs thorough), with and without the "
         "check of the original, indel on (and off for substitutions), checking Recovers and DetectsIffNotWalk; every exported case "
         "is replayed into repair_dna: a result equal to the machine's inherits TLC's verdict, a differing one is judged on its own "
-        "by Trace_Repair. Flow B: seeded walks of 40..200 nt on generated graphs of orders 2..4 with 1..4 spaced edits "
+        "by Trace_Repair. Flow B: seeded walks of 40..200 nt on generated graphs of orders 2..4 with 1..3 spaced edits "
         "(admissibility decided by TLC). Distinct non-trivial = distinct (graph, start, corrupted strand, check, indel).")
 
 MINE = rf.C08
@@ -76,8 +76,28 @@ def flow_b(ctx, mine, n, salt, kinds=("edited",)):
             kind = kinds[(i + j) % len(kinds)]
             if L >= 600:
                 kind = "long"
+            periodic = None
+            if kind == "edited" and j == 3:
+                # a periodic walk (a cycle of the graph repeated) with the same edit a whole number of periods apart: identical local context
+                seen, path, v = {}, [], start
+                while v not in seen and len(path) < 64:
+                    seen[v] = len(path)
+                    a = rng.choice(live[v])
+                    path.append(a)
+                    v = (4 * v + a) % len(live)
+                if v in seen:
+                    pre, cyc = path[:seen[v]], path[seen[v]:]
+                    reps = max(3, (8 * k + 12) // len(cyc) + 2)
+                    w = pre + cyc * reps
+                    m = -(-(3 * k + 2) // len(cyc))                      # periods between the two edits (ceil)
+                    p1 = len(pre) + len(cyc) * (-(-k // len(cyc))) + rng.randrange(len(cyc))
+                    p2 = p1 + m * len(cyc)
+                    if p2 < len(w) - 2 * k and p1 >= k:
+                        op = rng.choice("SID")
+                        sym = rng.choice([x for x in range(4) if x != w[p1]]) if op == "S" else (rng.randrange(4) if op == "I" else 0)
+                        periodic = [{"op": op, "pos": p1, "sym": sym}, {"op": op, "pos": p2, "sym": sym}]
             if kind == "edited":
-                es = make_edits(rng, w, k, rng.choice([1, 1, 2, 3, 4]))
+                es = periodic or make_edits(rng, w, k, rng.choice([1, 1, 2, 3] if k <= 2 else [1, 1, 2]))        # keeps the candidate product (up to ~8k fragments per edit) in the low thousands
                 s = apply_edits(w, es)
                 only_subs = all(e["op"] == "S" for e in es)
                 indel = True if not only_subs else rng.choice([True, False])
@@ -111,7 +131,7 @@ def flow_b(ctx, mine, n, salt, kinds=("edited",)):
             vt = []
             if vtmode != "none":
                 base = w if kind == "edited" else s
-                nvt = rng.choice([2, 3, 5, 33, 40])
+                nvt = rng.choice([1, 2, 3, 5, 33, 40])
                 rv = impl.call(dsw.set_vt, impl.dna(base), nvt)
                 if rv["out"] == "ok":
                     vt = impl.undna(rv["value"])
